@@ -339,6 +339,26 @@ KATS = [
 ]
 
 
+# ciphers that exist inside the Coq model (model/Des.v ...): driver table names for encryption / decryption
+MODEL_CIPHERS = {'tdes': ('TDES', 'TDESD')}
+
+
+def rand_kat_cases(rng, n):
+    """random keys and blocks: the ciphertext is computed by the from-scratch reference at generation time; cryptography
+    and the extracted cipher model are both compared with it"""
+    out = []
+    for i in range(n):
+        alg = 'tdes' if i % 2 == 0 else 'aes'
+        klen = rng.choice([8, 16, 24] if alg == 'tdes' else [16, 24, 32])
+        bs = 8 if alg == 'tdes' else 16
+        key = bytes(rng.randrange(256) for _ in range(klen))
+        if rng.random() < 0.15:
+            key = bytes([rng.choice([0, 1, 0xfe, 0xff])]) * klen
+        pt = bytes(rng.randrange(256) for _ in range(bs * rng.choice([1, 1, 2, 3])))
+        out.append({'kind': 'kat', 'alg': alg, 'key': key.hex(), 'pt': pt.hex(), 'ct': ref_ecb(alg, key, pt).hex(), 'src': 'random'})
+    return out
+
+
 def kat_cases():
     return [{'kind': 'kat', 'alg': a, 'key': _h(k), 'pt': _h(p), 'ct': _h(c), 'src': s} for a, k, p, c, s in KATS]
 
@@ -367,8 +387,13 @@ def kat_impl(case):
     return {'enc': outcome(lambda: lib_ecb(case['alg'], key, pt), hb), 'dec': outcome(lambda: lib_ecb(case['alg'], key, ct, True), hb)}
 
 
-def kat_judge(case, io):
+def kat_judge(case, io, mo=None):
     ps = []
+    if mo and len(mo) == 2 and case['alg'] in MODEL_CIPHERS:
+        if mo[0] != 'OK ' + (case['ct'] or '-'):
+            ps.append({'kind': 'oracle', 'sig': 'kat-model-%s-encrypt' % case['alg'], 'msg': 'the Coq cipher model gives %s for the known answer %s (%s)' % (mo[0], case['ct'], case.get('src'))})
+        if mo[1] != 'OK ' + (case['pt'] or '-'):
+            ps.append({'kind': 'oracle', 'sig': 'kat-model-%s-decrypt' % case['alg'], 'msg': 'the Coq cipher model (decrypt) gives %s for %s (%s)' % (mo[1], case['pt'], case.get('src'))})
     alg = case['alg']
     key, pt, ct = bytes.fromhex(case['key']), bytes.fromhex(case['pt']), bytes.fromhex(case['ct'])
     what = '%s known-answer vector (%s)' % (alg, case.get('src', ''))
@@ -518,7 +543,7 @@ def rfill(rng):
 
 def gen(rng, tier):
     reps = 2 if tier == 'quick' else 20
-    cases = kat_cases()
+    cases = kat_cases() + rand_kat_cases(rng, 60 if tier == 'quick' else 1500)
     for _ in range(reps):
         # every PIN length x position x digit value; PAN lengths 13..19 in turn
         n = 0
@@ -775,6 +800,9 @@ def plan(case, io):
     """[(tag, driver line)] — which model / specification values are asked for this case"""
     k = case['kind']
     io = io if isinstance(io, dict) else {}
+    if k == 'kat' and case['alg'] in MODEL_CIPHERS:
+        e, d = MODEL_CIPHERS[case['alg']]
+        return [('menc', 'cipher %s %s %s' % (e, case['key'] or '-', case['pt'] or '-')), ('mdec', 'cipher %s %s %s' % (d, case['key'] or '-', case['ct'] or '-'))]
     if k == 'kat' or io.get('out') in ('HANG', 'CRASH', 'HARNESS', 'NOTRUN'):
         return []
     dom = in_domain(case)
@@ -832,6 +860,18 @@ def plan(case, io):
                 out.append(('dec', 'pin0_dec %s %s %s %s %s' % (alg, table(ent_d), hs(case['key']), hb(ct), hs(case['pan']))))
             else:
                 out.append(('dec', 'pin4_dec %s %s %s %s' % (alg, table(ent_d), hs(case['key']), hb(ct))))
+        if dom and alg in MODEL_CIPHERS:
+            # the same through the cipher that lives inside the model: no answer is supplied by the harness
+            e, d = MODEL_CIPHERS[alg]
+            am = (alg, e, hs(case['key']), hs(case['pin']))
+            if fmt == 0:
+                out.append(('enc_m', 'pin0_enc %s %s %s %s %s' % (am + (hs(case['pan']),))))
+                if ct is not None:
+                    out.append(('dec_m', 'pin0_dec %s %s %s %s %s' % (alg, d, hs(case['key']), hb(ct), hs(case['pan']))))
+            else:
+                out.append(('enc_m', 'pin4_enc %s %s %s %s %s' % (am + (case['rnd'],))))
+                if ct is not None:
+                    out.append(('dec_m', 'pin4_dec %s %s %s %s' % (alg, d, hs(case['key']), hb(ct))))
     elif k == 'dec':
         key = hex_key(case['key'])
         enc = bytes.fromhex(case['enc'])
@@ -871,7 +911,7 @@ def judge(case, io, mo):
         return [{'kind': 'oracle', 'sig': 'outcome-' + io['out'], 'msg': 'implementation outcome %s' % io}]
     k = case['kind']
     if k == 'kat':
-        return kat_judge(case, io)
+        return kat_judge(case, io, mo)
     tags = [t for t, _ in plan(case, io)]
     m = dict(zip(tags, mo)) if mo is not None and len(mo) == len(tags) else {}
     dom = in_domain(case)
@@ -994,6 +1034,10 @@ def judge(case, io, mo):
         model('enc', io['enc'], 'pin%d_enc' % fmt)
         if 'dec' in io:
             model('dec', io['dec'], 'pin%d_dec' % fmt)
+        if 'enc_m' in m:
+            model('enc_m', io['enc'], 'pin%d_enc_model_%s' % (fmt, alg))
+        if 'dec_m' in m and 'dec_direct' in io:
+            model('dec_m', io['dec_direct'], 'pin%d_dec_model_%s' % (fmt, alg))
     elif k == 'dec':
         model('dec', io['dec'], 'pin%d_dec' % fmt)
     # outside the property's domain (non-digit PINs, malformed keys, arbitrary blocks ...) the code's behaviour is not
